@@ -59,3 +59,62 @@ reg(
                 "the property is a totality claim over (template, data) pairs whose failures live at type-confused and boundary inputs that no hand-written test renders."),
     level_note="Trusts the harness's value pool to contain the boundary values of each parameter; memory-safety is only 'no sanitizer report on the sampled executions'.",
 )
+
+reg(
+    "C09",
+    title="rendering is repeatable",
+    level="exploration",
+    technique="runtime monitoring: history monitor — every render in every call history on a shared parser is compared with its stand-alone result on a freshly built parser; caller-data immutability monitor",
+    design_ref="DESIGN.md §5 C09",
+    rule=("a case = (pool of 2-3 templates x 2-3 data objects over one partial set, compilation policy eager|lazy, history r1..rk). "
+          "All histories of length <= 3 over the pool's (template, data) pairs are enumerated, lengths 4-6 are sampled. Every call's result "
+          "(output, or 'error') must equal the result of the same (template, data) on a fresh parser. distinct = distinct (pool, policy, history); "
+          "non-trivial = history length >= 2 (a single call cannot observe leaked state)."),
+    profiles={"quick": ["checked"], "thorough": ["checked"]},
+    floor={"quick": 20000, "thorough": 1000000},
+    assumptions=[
+        "objects with more than one key are never iterated or printed whole (the licensed source of non-determinism)",
+        "errors are compared as 'failed', not by message text",
+    ],
+    level_text=("Exhaustive short histories and sampled longer ones over pools rich in stateful constructs (cycle, increment, ifchanged, "
+                "capture, break/continue, partials, renders failing midway), with a differential oracle per call. Right level: the property "
+                "quantifies over histories, which only a driver that replays sequences against a stand-alone baseline can observe."),
+    level_note="Baseline = the same library on a fresh parser (differential): a defect that is history-independent is out of scope here and belongs to C04-C08.",
+)
+
+reg(
+    "C10",
+    title="failing sink: error, no further writes, clean prefix",
+    level="fault_enumeration",
+    technique="runtime monitoring with fault injection: recording/failing io::Write sink, every write index of the fault-free run failed in turn (hard failure and short-write-then-failure)",
+    design_ref="DESIGN.md §5 C10",
+    rule=("a case = (generated template with partials and data, fault mode in {fail, short-then-fail}, k) for every k in 1..W where W is the "
+          "number of write calls of the fault-free run (W <= 400 exhaustively, stride-sampled above). Oracle: render_to returns Err, the sink "
+          "sees zero calls after the failing one, accepted bytes are a prefix of the fault-free bytes; with an infallible sink the streamed bytes "
+          "equal render()'s string. distinct = distinct (scenario, mode, k); non-trivial = the fault point was injected into a run that writes (W >= 1)."),
+    exhaustive=False,
+    profiles={"quick": ["checked"], "thorough": ["checked"]},
+    floor={"quick": 3000, "thorough": 200000},
+    assumptions=["ErrorKind::Interrupted is not injected (std retries it by contract)"],
+    level_text=("Exhaustive enumeration of fault points per generated template under a sink that records what it was offered. Right level: the "
+                "property quantifies over fault sequences, and the suite never calls render_to."),
+    level_note="Templates are generated, so constructs the generator cannot express are not covered; counts per construct are in the evidence.",
+)
+
+reg(
+    "C19",
+    title="eager / lazy / on-demand partial policies agree",
+    level="exploration",
+    technique="runtime monitoring: differential monitor across the three compilation policies, with an instrumented PartialSource recording which partial names an execution actually requested",
+    design_ref="DESIGN.md §5 C19",
+    rule=("a case = (main template, 0-4 partials some broken, a possibly missing name, data, 1-3 renders per parser). Oracle: build() is Ok under "
+          "all three policies; results agree (same output or all fail); repeated renders equal the first; if the instrumented source saw no lookup "
+          "of a broken/missing name, every policy must equal the scenario with the broken partials made healthy. distinct = distinct scenario by "
+          "content hash; non-trivial = the main template contains an include or render tag."),
+    profiles={"quick": ["checked"], "thorough": ["checked"]},
+    floor={"quick": 10000, "thorough": 500000},
+    assumptions=["sources list their names truthfully (InMemorySource)", "error texts across policies are not compared, only success/failure"],
+    level_text=("Differential execution of generated scenarios under every policy. Right level: the property quantifies over configurations; "
+                "the suite never builds two policies for the same scenario."),
+    level_note="'Reached' is what the on-demand run's instrumented source observed.",
+)
